@@ -193,6 +193,10 @@ pub struct EnvSpec {
     /// replacement that was due before it.
     #[serde(default)]
     pub file_updates: Vec<(usize, String, Vec<u8>)>,
+    /// Environment fault: the process cannot determine its working directory (the directory it
+    /// was started in has been removed): `VM.working_directory` is `None`.
+    #[serde(default)]
+    pub no_working_directory: bool,
 }
 
 pub struct VmProc {
@@ -210,7 +214,11 @@ pub struct EnvCursor {
 }
 
 fn attach_env(vm: &mut vm::VM<SimState>, spec: &EnvSpec, cursor: &EnvCursor) {
-    vm.working_directory = Some(PathBuf::from(SIM_CWD));
+    vm.working_directory = if spec.no_working_directory {
+        None
+    } else {
+        Some(PathBuf::from(SIM_CWD))
+    };
     let mut font_refs = vec![];
     for (i, name) in FONT_NAMES.iter().enumerate() {
         let cs = vm.cs_name_interner_mut().get_or_intern(name);
